@@ -10,6 +10,7 @@ import McpModel.Wire.LemmasSse
 import McpModel.Wire.LemmasBytes
 import McpModel.Wire.LemmasConc
 import McpModel.Wire.LemmasRef
+import McpModel.Wire.LemmasAnn
 import McpModel.Wire.LemmasRetry
 /-!
 # C19 (and the E2 part of C02) — property theorems of the wire engine
